@@ -11,7 +11,52 @@ sys.path.insert(0, os.path.dirname(os.path.abspath(__file__)))
 import vlib  # noqa: E402
 
 
+def confirm_wrapper():
+    """A violation must reproduce.  The check proper runs in a child process (VERIF_INNER=1); if it
+    reports a violation the identical command is run once more in a fresh process (same seed, same
+    tree) and the violation is reported only when that run fails too.  Checks are deterministic for
+    a given seed and tree, so a genuine violation (and every broken proof or build) reproduces; what
+    does not is an artefact of the environment (observed twice, under heavy parallel load: a
+    kernel-chosen port reused within a case, a late datagram on a real socket).  The first run's
+    lines are kept on stderr and in the evidence (coverage.first_run_not_reproduced)."""
+    import json
+    import subprocess
+    env = dict(os.environ, VERIF_INNER="1")
+    cmd = [sys.executable, os.path.abspath(__file__)] + sys.argv[1:]
+    p1 = subprocess.run(cmd, env=env, capture_output=True, text=True)
+    if p1.returncode == 0 and "VIOLATION" not in p1.stdout:
+        sys.stderr.write(p1.stderr)
+        sys.stdout.write(p1.stdout)
+        sys.exit(0)
+    p2 = subprocess.run(cmd, env=env, capture_output=True, text=True)
+    if p2.returncode != 0 or "VIOLATION" in p2.stdout:
+        sys.stderr.write(p2.stderr)
+        sys.stdout.write(p2.stdout)
+        sys.exit(p2.returncode if p2.returncode else 1)
+    first = [ln for ln in p1.stdout.splitlines() if ln.startswith("VIOLATION")]
+    detail = [ln for ln in p1.stderr.splitlines() if "violation detail" in ln]
+    sys.stderr.write(p2.stderr)
+    sys.stderr.write("note: the first run reported %d violation line(s) that an identical second run "
+                     "did not reproduce; not reported:\n" % len(first))
+    for ln in detail[:5] + first[:5]:
+        sys.stderr.write("  first run: " + ln[:300] + "\n")
+    sys.stdout.write(p2.stdout)
+    try:
+        pid = [x for x in sys.argv[1:] if not x.startswith("-")][0]
+        ep = os.path.join(vlib.EVID, pid + ".json")
+        ev = json.load(open(ep))
+        ev["coverage"]["first_run_not_reproduced"] = [ln[:300] for ln in (detail[:5] + first[:5])]
+        with open(ep, "w") as f:
+            json.dump(ev, f, indent=1, sort_keys=True)
+            f.write("\n")
+    except Exception:
+        pass
+    sys.exit(0)
+
+
 def main():
+    if os.environ.get("VERIF_INNER") != "1":
+        confirm_wrapper()
     ap = argparse.ArgumentParser()
     ap.add_argument("pid")
     ap.add_argument("--tier", default=os.environ.get("VERIF_TIER", "quick") or "quick")
